@@ -138,23 +138,41 @@ inductive DOp where
   | loadFail (o : Nat)       -- symbol constructor raises: its share is released again
   | copy (o : Nat)           -- copy of a dl or symbol object
   | destroy (o : Nat)
+  | assign (o p : Nat)       -- obj[o] = obj[p]  (symbol = symbol, dl = dl), both alive
   deriving DecidableEq, Repr
+
+/-- A new object takes a share of object `o`'s handle (symbol creation, copy construction). -/
+def DS.shareStep (s : DS) (o : Nat) : DS :=
+  match s.objs[o]? with
+  | some (some h) => { s with objs := s.objs ++ [some h], rc := s.rc.set h (s.rc[h]?.getD 0 + 1) }
+  | _ => s
+
+/-- Object `o` is destroyed: its share is released; the last share runs the deleter (`dlclose`). -/
+def DS.destroyStep (s : DS) (o : Nat) : DS :=
+  match s.objs[o]? with
+  | some (some h) =>
+    let n := s.rc[h]?.getD 0
+    { objs := s.objs.set o none, rc := s.rc.set h (n - 1),
+      closes := if n = 1 then s.closes ++ [h] else s.closes }
+  | _ => s
+
+/-- Copy assignment `obj[o] = obj[p]` (both alive): `shared_ptr` copy assignment takes the new share
+first and then releases the old one; the object in slot `o` afterwards shares `p`'s handle. -/
+def DS.assignStep (s : DS) (o p : Nat) : DS :=
+  match s.objs[o]?, s.objs[p]? with
+  | some (some _), some (some hp) =>
+    let s2 := (s.shareStep p).destroyStep o
+    -- the temporary share becomes slot `o`'s share
+    { s2 with objs := (s2.objs.set o (some hp)).dropLast }
+  | _, _ => s
 
 def DS.step (s : DS) : DOp → DS
   | .openOk => { objs := s.objs ++ [some s.rc.length], rc := s.rc ++ [1], closes := s.closes }
   | .openFail => s
-  | .loadOk o | .copy o =>
-    match s.objs[o]? with
-    | some (some h) => { s with objs := s.objs ++ [some h], rc := s.rc.set h (s.rc[h]?.getD 0 + 1) }
-    | _ => s
+  | .loadOk o | .copy o => s.shareStep o
   | .loadFail _ => s          -- share taken and released: use count unchanged, no close (the library object still owns it)
-  | .destroy o =>
-    match s.objs[o]? with
-    | some (some h) =>
-      let n := s.rc[h]?.getD 0
-      { objs := s.objs.set o none, rc := s.rc.set h (n - 1),
-        closes := if n = 1 then s.closes ++ [h] else s.closes }
-    | _ => s
+  | .destroy o => s.destroyStep o
+  | .assign o p => s.assignStep o p
 
 def DS.run (s : DS) : List DOp → DS
   | [] => s
